@@ -196,19 +196,31 @@ impl<F> FuturesUnorderedBounded<F> {
         }
 
         self.shared.register(cx.waker());
+        #[cfg(feature = "verif")]
+        crate::verif::emit(crate::verif::Probe::Point(crate::verif::P_AFTER_REGISTER));
 
         let mut count = 0;
         loop {
             count += 1;
             // if we are in a pending only loop - let's break out.
             if count > MAX {
+                #[cfg(feature = "verif")]
+                crate::verif::emit(crate::verif::Probe::Point(crate::verif::P_BUDGET));
                 cx.waker().wake_by_ref();
                 return Poll::Pending;
             }
 
             match unsafe { self.shared.pop() } {
+                #[cfg(feature = "verif")]
+                crate::waker_list::ReadySlot::None => {
+                    crate::verif::emit(crate::verif::Probe::Point(crate::verif::P_EMPTY_BEFORE_PENDING));
+                    return Poll::Pending;
+                }
+                #[cfg(not(feature = "verif"))]
                 crate::waker_list::ReadySlot::None => return Poll::Pending,
                 crate::waker_list::ReadySlot::Inconsistent => {
+                    #[cfg(feature = "verif")]
+                    crate::verif::emit(crate::verif::Probe::Point(crate::verif::P_INCONSISTENT));
                     cx.waker().wake_by_ref();
                     return Poll::Pending;
                 }
@@ -221,6 +233,10 @@ impl<F> FuturesUnorderedBounded<F> {
                         if let Poll::Ready(x) = res {
                             return Poll::Ready(Some((i, x)));
                         }
+                    }
+                    #[cfg(feature = "verif")]
+                    if self.tasks.get(i).is_none() {
+                        crate::verif::emit(crate::verif::Probe::Point(crate::verif::P_VACANT_SKIPPED));
                     }
                 }
             }
